@@ -66,7 +66,7 @@ func (m *batchMapStore) PutMany(c context.Context, bs []blocks.Block) error {
 }
 
 // ScanReaderKinds are readers that iterate the whole archive and verify hashes.
-var ScanReaderKinds = []string{"br-bytes", "br-stream", "br-file", "root-reader", "root-load", "root-load-batch", "int-reader", "int-load"}
+var ScanReaderKinds = []string{"br-bytes", "br-stream", "br-file", "root-reader", "root-reader-lenient", "root-load", "root-load-batch", "int-reader", "int-load"}
 
 // payloadOf returns the CARv1 payload window of file using go-car's own Reader
 // (for feeding the v1-only readers), or file itself for a CARv1.
@@ -156,7 +156,7 @@ func Read(kind string, dir string, file []byte, o Opts) *ReadResult {
 		}
 		res.Payload, res.Err = io.ReadAll(dr)
 		return res
-	case "root-reader", "root-load", "root-load-batch", "int-reader", "int-load":
+	case "root-reader", "root-reader-lenient", "root-load", "root-load-batch", "int-reader", "int-load":
 		payload, err := payloadOf(file, o)
 		if err != nil {
 			res.OpenErr = err
@@ -164,8 +164,14 @@ func Read(kind string, dir string, file []byte, o Opts) *ReadResult {
 		}
 		src := PlainReader{bytes.NewReader(payload)}
 		switch kind {
-		case "root-reader":
-			cr, err := carv1.NewCarReader(src)
+		case "root-reader", "root-reader-lenient":
+			var cr *carv1.CarReader
+			var err error
+			if kind == "root-reader-lenient" {
+				cr, err = carv1.NewCarReaderWithOptions(src, carv1.WithErrorOnEmptyRoots(false))
+			} else {
+				cr, err = carv1.NewCarReader(src)
+			}
 			if err != nil {
 				res.OpenErr = err
 				return res
